@@ -70,6 +70,9 @@ def gen(tier, rnd):
     for n in SIZES: L.append(line(1 << 20, 'stream', 200, [], [], [body_of(rnd, n)], 'f'))
     L.append(line(1 << 20, 'stream', 200, [('Server', 'x')], ['a=b'], [b'first', b'second'], '--', 'Ww'))      # moved before the first flush
     L.append(line(1 << 20, 'stream', 200, [], [], [b'first', b'second'], '--', 'wwM'))                          # moved with unflushed chunks
+    # chunk-size lines at every change of the number of hex digits (a hand-formatted size line with a fixed buffer breaks at one of them)
+    for n in (0xf, 0x10, 0xff, 0x100, 0xfff, 0x1000, 0xffff, 0x10000): L.append(line(1 << 20, 'stream', 200, [], [], [body_of(rnd, n)], '-', 'w'))
+    for n in (0xfffff, 0x100000, 0x100001): L.append(line(1 << 22, 'stream', 200, [], [], [body_of(rnd, n)], 'f', 'w'))
     # Http::serveFile: head from the writer, body from a file
     for n in SIZES[::2]: L.append(line(1 << 20, 'file', 200, [], [], [body_of(rnd, n)]))
     for _ in range(12 if tier == 'quick' else 200):
@@ -208,7 +211,7 @@ def classify(ln, out):
 
 RULE = ('responses produced by a scripted handler on a live Http::Endpoint (127.0.0.1), read by a raw socket: every status code; 0..5 typed headers and 0..3 cookies from pools; '
         'fixed bodies of 0..20000 bytes (every buffer doubling boundary, arbitrary octets, bodies that look like chunk terminators) with maximum response size far above, at total-1, total, total+1; '
-        'streamed responses of 0..5 chunks via write()/operator<<(const char*)/operator<<(int), zero-length writes, any flush pattern, the ResponseStream moved by the handler before some writes and/or before ends(), batches around the cap; HTTP/1.0 and 1.1 requests. '
+        'streamed responses of 0..5 chunks (sizes incl. every change of the number of hex digits of the chunk-size line up to 0x100001) via write()/operator<<(const char*)/operator<<(int), zero-length writes, any flush pattern, the ResponseStream moved by the handler before some writes and/or before ends(), batches around the cap; HTTP/1.0 and 1.1 requests. '
         'The received bytes are checked by an independent RFC 7230 grammar and compared with the model\'s serialiser (header lines as sorted lists). non-trivial = distinct (mode, code, #headers, #cookies, size class, write kinds, outcome)')
 ASSUME = ['the handler does not set framing headers (Content-Length, Transfer-Encoding) itself', 'header/cookie values from the pools are in canonical written form',
           'header lines leave an unordered container: compared as sorted lists', 'one request per connection; loopback TCP delivers in order']
